@@ -372,6 +372,7 @@ type reqSpec struct {
 	hdr    map[string]string
 	cancelAfter time.Duration // > 0: the client goes away (request context cancelled) after this long
 	port        int           // > 0: the peer's source port (a kept-alive connection is one ip:port for many requests)
+	eitherHeader bool         // (lbaff) the address in xff is sent as X-Forwarded-For or as X-Real-IP, alternating
 	preCancelled bool         // the client is gone before the request reaches the balancer (context already cancelled)
 }
 
